@@ -124,7 +124,9 @@ def get? {β : Type} : List (Addr × β) → Addr → Option β
 
 /-! ### incomer methods -/
 
-/-- `Incomer.shutdown()`: `if self.cs: try: self.cs.shutdown(how) except socket.error: pass` -/
+/-- `Incomer.shutdown()`: `if self.cs: try: self.cs.shutdown(how) except socket.error: pass` — whatever
+OSError the socket's `shutdown()` raises (ENOTCONN after a reset, EBADF, …) is swallowed: for the table the
+call has happened (the double counts it) and nothing else changes -/
 def shutdownIncomer (socks : List Sock) (ix : Incomer) : List Sock :=
   if ix.hasCs then upd socks ix.sock (fun k => { k with shutdowns := k.shutdowns + 1 }) else socks
 
@@ -282,6 +284,8 @@ inductive Op
   | serviceConnects
   | serviceAll
   | shutdownIx (ca : Addr)
+  | shutdownSendIx (ca : Addr)      -- `self.ixes[ca].shutdownSend()`: one `cs.shutdown(SHUT_WR)` if `.cs`
+  | shutdownReceiveIx (ca : Addr)   -- `self.ixes[ca].shutdownReceive()`: one `cs.shutdown(SHUT_RD)` if `.cs`
   | closeIx (ca : Addr)
   | closeAllIx
   | removeIx (ca : Addr) (shutclose : Bool)
@@ -297,6 +301,8 @@ def step (v : Version) (s : State) : Op → Res
   | .serviceConnects => serviceConnects v s
   | .serviceAll => serviceAll v s
   | .shutdownIx ca => shutdownIx s ca
+  | .shutdownSendIx ca => shutdownIx s ca
+  | .shutdownReceiveIx ca => shutdownIx s ca
   | .closeIx ca => closeIx s ca
   | .closeAllIx => .ok (closeAllIx s)
   | .removeIx ca sc => removeIx s ca sc
